@@ -14,6 +14,10 @@ def norm(line):
 def collect(ctx, jobs):
     seen = {}
     for l in ctx.leaks:
+        # the scripted clients of the harness run in the same process: their own TLS / HTTP client
+        # stacks log what the harness itself sends; that is not the endpoint's log
+        if "::client" in l["target"] or l["target"].startswith("ttv") or l["target"].startswith("c0") or l["target"].startswith("c1"):
+            continue
         if l["target"].startswith("trusttunnel"):
             sig = "leak:%s:%s:%s" % (l["tag"], l["target"], norm(l["line"]))
         else:
